@@ -1,4 +1,14 @@
 CHECKS = {
+ "C06": {
+  "text": "Exhaustive enumeration of broadcastable lshape pairs (extents {0,1,2,3}; rank<=2 quick, rank<=3 thorough) x group types x 9 binary "
+          "ops and of all lshapes x 8 ltypes x 12 unary ops against item-by-item application; generated programs over a call template for "
+          "every name in HANDLED_FUNCTIONS compared with the same program on the plain tensor; a table of ~230 public calls with bitwise "
+          "argument snapshots; fault injection (exception after k ops) inside retain_ltype / func.jacrev with identity checks on the three "
+          "patched torch attributes. The broadcasting part is complete for the stated extents; the rest is exploration.",
+  "design_ref": "DESIGN.md section 3, C06",
+  "note": "Item-wise oracle uses the same pypose op on unbatched items (the statement is about batching transparency, not op values, which C01-C05 cover). cpu only.",
+  "technique": "property-based testing: exhaustive shape enumeration, Hypothesis call programs (differential vs plain tensors), fault injection",
+ },
  "C04": {
   "text": "Generated well-typed programs (1..6 operator nodes over the property's operator list with Euclidean glue; 1..3 inputs of kind "
           "group / algebra / point) evaluated at generic, identity, tiny and large-rotation points, through five autograd routes, against "
